@@ -6,10 +6,10 @@ CONSTANTS
   Denom = {d1, d2}
   CoinSet = {}
   GCoinAmts = {1, 2, 3}
-  GHugeAmts = {999999, 1000000, 1000001}
+  GHugeAmts = {99999999, 100000000, 100000001}
   AmtSet = {1, 2, 3}
-  LockSet = {0, 1, 2, 3, 4, 5, 1000000, 1000001, 1999999, 2000000}
-  U64Lim = 2000000
+  LockSet = {0, 1, 2, 3, 4, 5, 100000000, 100000001, 199999999, 200000000}
+  U64Lim = 200000000
   Depth = 22
 SPECIFICATION GSpec
 INVARIANT Emit
